@@ -326,6 +326,21 @@ def run_case(ctx, case):
                    case, cls=dict(cls, op="accepted_inputs (%s)" % ("order" if same_set else "rows")))
     if X.dtype != torch.long:
         ctx.oracle("accepted_inputs returns dtype %s, not integer indices" % X.dtype, case, cls=dict(cls, op="accepted_inputs (dtype)"))
+    # model side (Model/Accepted.lean; theorems C16.accepted_inputs_spec_any / accepted_inputs_arr_spec / accepted_inputs_arr_refines): the
+    # compiled array-level model (the exact sequence of writes into Xs) and the list-level model on the implementation's own cores
+    if getattr(ctx, "use_model", False) and not getattr(ctx, "search_only", False) and x.size <= 400 and x.sum() <= 300:
+        for cmd in ("accepted_arr", "accepted"):
+            a = ctx.drv().call(cmd + " " + pt.ser())
+            ctx.count("model:" + cmd)
+            if a[0] == "err" and a[1] == "negative" and case["transform"]:
+                ctx.count("model:%s skipped (round-off below zero after %s)" % (cmd, case["transform"])); continue
+            rows = None
+            if a[0] == "ok" and a[1] == "R":
+                nr, nc = int(a[2]), int(a[3])
+                rows = np.array([int(v) for v in a[4:4 + nr * nc]], dtype=np.int64).reshape(nr, nc)
+            if rows is None or rows.shape != Xn.shape or not np.array_equal(rows, Xn.astype(np.int64)):
+                ctx.corr("accepted_inputs: implementation rows differ from the model's (%s): model %s" % (cmd, a[:10]), case)
+                break
     model_hook(ctx, case, t)
 
 
